@@ -152,6 +152,17 @@ Theorem C08_parse_address_total :
 Proof. exact parse_address_total. Qed.
 Print Assumptions C08_parse_address_total.
 
+(* 6''. history independence: ParseAPI.address wraps its argument in a parseable_str whose cache (modelled as explicit
+       state with the keys the code uses today, all functions of the text alone) travels with the object when ONE
+       parseable_str is offered to several networks in turn (pycoin.cmds.ku.parse_key).  Whatever the sequence of
+       networks, each answer is the answer that network gives to a fresh string: so theorems 1-4 hold for shared
+       objects too. *)
+Theorem C08_parse_history_independent :
+  forall (dec : bytes -> option bytes) (sparse : bytes -> option (bytes * N * bytes * N)) (s : bytes) (nets : list netrow),
+  parse_address_seq dec sparse nets s pcache_empty = map (fun net => parse_address dec sparse net s) nets.
+Proof. exact parse_address_seq_fresh_empty. Qed.
+Print Assumptions C08_parse_history_independent.
+
 (* 7. the table itself: every standard row is well-formed (prefixes of at most 2 bytes, P2PKH prefix <> P2SH prefix, an hrp
       the encoder accepts, recorded kinds = kinds with a prefix); a changed prefix that breaks this breaks the build here *)
 Theorem C08_table_wellformed : forall net, In net networks -> nr_std net = true -> net_wf net = true.
